@@ -689,4 +689,10 @@ theorem strict_dedupSorted : ∀ (l : List K), l.Pairwise (· ≤ ·) → (dedup
       · exact hab'
       · exact lt_of_lt_of_le hab' ((List.pairwise_cons.mp ha.2).1 x hx')
 
+/-! ### homogeneous deformation of positions and box -/
+
+theorem shiftBy_deformed (F V : M3 K) (p0 p1 : V3 K) (t : Shift) :
+    shiftBy (M3.mul V F.transpose) (M3.mulVec F p1 - M3.mulVec F p0) t = M3.mulVec F (shiftBy V (p1 - p0) t) := by
+  ext <;> simp only [shiftBy, M3.mul, M3.vecMul, M3.mulVec, M3.transpose, V3.dot, sub_x, sub_y, sub_z] <;> ring
+
 end Atomman.C17
